@@ -739,7 +739,9 @@ def adversarial_variables(rng, clauses, p_clause=0.7, p_var=0.7, p_anon=0.25):
                     r = rng.random()
                     if r < 0.6:
                         pool = sorted(near) if near and rng.random() < 0.7 else sorted(far)
-                        nm = rng.choice(ADV_VAR_TEMPLATES) % rng.choice(pool)
+                        # `_<N>` and `_G<N>` are how Prolog systems themselves write unnamed variables: the most plausible scheme, tried most often
+                        q = rng.random()
+                        nm = ('_%d' if q < 0.3 else '_G%d' if q < 0.4 else rng.choice(ADV_VAR_TEMPLATES)) % rng.choice(pool)
                     elif r < 0.8:
                         nm = rng.choice(ADV_VAR_FIXED)
                     else:
@@ -834,3 +836,54 @@ def has_dup_continuation(body, local_cut=False, cont=None):
     if k == 'not':
         return has_dup_continuation(body[1], local_cut, None)
     return False
+
+def gen_anon_program(rng):
+    """programs about `_`: "every `_` is a distinct variable".  Facts whose arguments are pairwise different atoms (d2, d3) or equal
+    (s2); rules whose heads and goals are full of `_` next to a few named variables, so that an answer exists only if every `_` is a
+    variable of its own (two `_` that were one variable, or a `_` that was one of the named variables, could not take the different
+    arguments of a fact) and only if every named variable is one variable (otherwise there are more answers).  The named variables
+    usually get adversarial names afterwards (adversarial_variables): a collision of names is the only way in which a compiler can
+    confuse a `_` with a variable of the source."""
+    atoms = ['a', 'b', 'c', 'd']
+    clauses = []
+    for _ in range(rng.randrange(2, 4)):
+        x, y = rng.sample(atoms, 2); clauses.append(['d2', [A(x), A(y)], ['true']])
+    for _ in range(rng.randrange(1, 3)):
+        x, y, z = rng.sample(atoms, 3); clauses.append(['d3', [A(x), A(y), A(z)], ['true']])
+    for x in rng.sample(atoms, 2):
+        clauses.append(['s2', [A(x), A(x)], ['true']])
+    clauses.append(['any', [V('_')], ['true']])
+    callees = [('d2', 2), ('d2', 2), ('d3', 3), ('s2', 2), ('any', 1)]
+    nr = rng.randrange(2, 5)
+    rules = []
+    for i in range(nr):
+        ar = rng.choice([1, 2, 2, 3])
+        named = rng.sample(VARS, rng.randrange(1, 4))
+        def arg(p_anon, p_named, simple=False):
+            q = rng.random()
+            if q < p_anon: return V('_')
+            if q < p_anon + p_named: return V(rng.choice(named))
+            if q < p_anon + p_named + 0.08 and not simple: return rng.choice([F('f', V('_'), V(rng.choice(named))), ['pair', V('_'), V('_')], ['list', [V('_'), V(rng.choice(named))]]])
+            return A(rng.choice(atoms))
+        head = [arg(0.35, 0.5) for _ in range(ar)]
+        goals = []
+        for _ in range(rng.randrange(1, 4)):
+            name, car = rng.choice(callees + [('r%d' % j, a) for j, a in rules])
+            # structures only as arguments of the fact predicates: no goal can build a cyclic term
+            goals.append(['call', name, [arg(0.5, 0.38, simple=name.startswith('r')) for _ in range(car)]])
+        if rng.random() < 0.3:
+            goals.append(['call', rng.choice(['=', '\\=']), [arg(0.4, 0.5, True), arg(0.3, 0.5, True)]])
+        clauses.append(['r%d' % i, head, _conj(goals)])
+        rules.append((i, ar))
+    # rules first or facts first (the number of a `_` in the whole text differs)
+    if rng.random() < 0.5:
+        facts = [c for c in clauses if not c[0].startswith('r')]
+        clauses = [c for c in clauses if c[0].startswith('r')] + facts
+    queries = []
+    for i, ar in rules:
+        queries.append(['r%d' % i, [V('Q%d' % j) for j in range(ar)]])
+        queries.append(['r%d' % i, [rng.choice([V('Q0'), V('Q1'), A(rng.choice(atoms)), F('f', V('Q0'), A(rng.choice(atoms)))]) for j in range(ar)]])
+    r = rng.random()
+    if r < 0.75:
+        clauses = adversarial_variables(rng, clauses, p_clause=1.0, p_var=0.8, p_anon=0.0)
+    return {'clauses': clauses, 'queries': queries}
